@@ -101,7 +101,10 @@ func (e *Engine) contractCalls(st *State, instr ssa.Instruction, env *Env, calls
 	if fv.Clo == nil {
 		// unknown function value: arbitrary effect
 		e.unmodelled(st, "funcvalue:"+cs.Param+"@"+e.posOf(instr.Pos()))
-		e.havocAll(st)
+		for _, a := range args {
+			e.escape(st, a)
+		}
+		e.havocAllKeepPrivate(st)
 		cont(st, e.freshResults(st, "cb", sig))
 		return
 	}
